@@ -1345,6 +1345,15 @@ impl StdFilesystem {
     }
 }
 
+// A file set without a directory component (like `app.log`) lives in the current directory
+fn dir_or_current(path: &Path) -> &Path {
+    if path.as_os_str().is_empty() {
+        Path::new(".")
+    } else {
+        path
+    }
+}
+
 impl Filesystem for StdFilesystem {
     fn create_dir_all(&self, path: &Path) -> io::Result<()> {
         std::fs::create_dir_all(path)
@@ -1356,7 +1365,7 @@ impl Filesystem for StdFilesystem {
             if let Some(parent) = path.parent() {
                 let _ = std::fs::OpenOptions::new()
                     .read(true)
-                    .open(parent)?
+                    .open(dir_or_current(parent))?
                     .sync_all();
             }
 
@@ -1372,7 +1381,7 @@ impl Filesystem for StdFilesystem {
     }
 
     fn read_dir_files(&self, path: &Path) -> io::Result<Box<dyn Iterator<Item = PathBuf>>> {
-        let iter = std::fs::read_dir(path)?.filter_map(|entry| {
+        let iter = std::fs::read_dir(dir_or_current(path))?.filter_map(|entry| {
             let entry = entry.ok()?;
 
             if entry.metadata().ok()?.is_file() {
